@@ -25,12 +25,26 @@ type Table struct {
 	// SelfCheck holds a description if the table disagreed with the lexer's own
 	// token positions (would mean the table rule is wrong -> harness defect).
 	SelfCheck string
+	// fragile marks lines holding multi-byte characters that are not part of
+	// any valid token (TokenInvalid / TokenBadUTF8): the lexer assigns columns
+	// per such token, grapheme clusters spanning them have no agreed column, so
+	// only the byte rules are checked on these lines.
+	fragile map[int]bool
 }
 
 // Build builds the table for native syntax files.
 func Build(filename string, src []byte) *Table {
-	t := &Table{Filename: filename, Len: len(src), pos: make([]hcl.Pos, len(src)+1)}
+	t := &Table{Filename: filename, Len: len(src), pos: make([]hcl.Pos, len(src)+1), fragile: map[int]bool{}}
 	toks, _ := hclsyntax.LexConfig(src, filename, hcl.InitialPos)
+	for _, tok := range toks {
+		if tok.Type == hclsyntax.TokenInvalid || tok.Type == hclsyntax.TokenBadUTF8 {
+			for _, b := range tok.Bytes {
+				if b >= 0x80 {
+					t.fragile[tok.Range.Start.Line] = true
+				}
+			}
+		}
+	}
 	cur := hcl.InitialPos
 	t.pos[0] = cur
 	for _, tok := range toks {
@@ -167,6 +181,9 @@ func CheckRange(tables map[string]*Table, r hcl.Range) string {
 		p hcl.Pos
 	}{{"start", r.Start}, {"end", r.End}} {
 		want, ok := t.At(e.p.Byte)
+		if t.fragile[e.p.Line] || (ok && t.fragile[want.Line]) {
+			continue
+		}
 		if !ok {
 			return fmt.Sprintf("%s byte %d is not on a character boundary", e.n, e.p.Byte)
 		}
